@@ -505,6 +505,9 @@ pub fn check_cmd(check: &'static dyn Check, thorough: bool) -> i32 {
         classes.entry((v.clause.clone(), v.sig.clone())).or_default().push(*idx);
     }
     let mut violation_lines = Vec::new();
+    for ((clause, sig), idxs) in classes.iter() {
+        println!("[{}] class clause={} sig={} runs={} first_idx={}", prop, clause, sig, idxs.len(), idxs.iter().min().unwrap());
+    }
     let _ = std::fs::create_dir_all(format!("{}/replays", VERIF_DIR));
     for (k, ((clause, sig), idxs)) in classes.iter().enumerate() {
         if k >= 3 {
